@@ -18,7 +18,7 @@
 using namespace FIX8;
 
 // ---------------------------------------------------------------------------------------------
-static std::string g_dir, g_snapdir;
+static std::string g_dir, g_snapdir, g_curdir;
 static bool g_snap = false;
 static long g_k = 0;          // completed system calls on the store's files since "new"
 static std::vector<std::string> g_syslog;   // json fragments
@@ -219,6 +219,15 @@ int main(int argc, char **argv)
 		else if (c == "reopen")    // reopen <k>|live : fresh FilePersister on the disk image after syscall k
 		{
 			delete per; per = nullptr;
+			if (t[1] == "again")   // clean restart: a fresh FilePersister on the files the previous one left (after a reopen <k>)
+			{
+				if (g_curdir.empty()) { pj::Ev("Error").s("what", "reopen again without a reopened store").emit(); continue; }
+				FilePersister *fp = new FilePersister;
+				const bool ok = fp->initialise(g_curdir, "store", false);
+				per = fp;
+				pj::Ev("Reopen2").b("ret", ok).emit();
+				continue;
+			}
 			long k = -1;
 			std::string idxs, dats;
 			if (t[1] == "live") { idxs = slurp(g_idx); dats = slurp(g_dat); k = g_k; }
@@ -232,6 +241,7 @@ int main(int argc, char **argv)
 			g_snap = false;
 			g_idx.clear(); g_dat.clear();
 			std::string d = g_dir + "_r" + std::to_string(++gen);
+			g_curdir = d;
 			mkdir(d.c_str(), 0700);
 			spit(d + "/store", dats); spit(d + "/store.idx", idxs);
 			FilePersister *fp = new FilePersister;
